@@ -11,6 +11,13 @@
           no missing grouping element at all) so that a missing / wrong re-ordering of the axes
           still gives a plausible shape.
   nub     the cube without dimensions (a numeric measure over everybody): `_Nub`.
+  tdorder ordinary cubes (cube_util.gen_case: 1-D, 2-D, 3-D, CA) in which one or more categorical /
+          categorical-date / datetime / text / binned dimensions (or the categories dimension of a
+          categorical array) carry an "order" list in their TYPE DEFINITION: the catalogue
+          (type.categories / type.elements) is listed in another order than the data runs along the
+          axis, may list categories the order list leaves out and the order list may name codes the
+          catalogue does not know; enum payloads are shuffled so that the missing element sits
+          anywhere.  Grouping variables of numeric arrays get typedef orders too (30%).
   typed   ordinary cubes whose dimensions stress Dimensions.dimension_type: arrays whose
           categories carry ids 1, 0, -1 (no selected flag / selected:false), a selected flag on
           other ids or orders, categoricals that look like selections (LOGICAL or not), "date" on
@@ -28,7 +35,7 @@ from harness.props import cube_util as cu
 
 IMPORTS = cu.IMPORTS.replace(
     "Import ListNotations.",
-    "From CC Require Import Model.NumArray Model.DimType.\nImport ListNotations.")
+    "From CC Require Import Model.NumArray Model.DimType Model.TypedefOrder.\nImport ListNotations.")
 
 # Model/DimType.v dtype_code
 DT_NAMES = ["BINNED_NUMERIC", "CAT", "CAT_DATE", "CA_CAT", "CA_SUBVAR", "DATETIME", "LOGICAL",
@@ -186,7 +193,10 @@ def numarr_response(sv, aliases, items, measures, valid_counts, unavailable, wit
         if sv.weighted and valid_counts != "unweighted_only":
             meas["valid_count_weighted"] = {"data": [gen.fnum(x) for x in lay("vcw")],
                                             "metadata": copy.deepcopy(md), "n_missing": 0}
-    return {"query": {}, "result": result}
+    resp = {"query": {}, "result": result}
+    if any(getattr(v, "typedef_order", None) is not None for v in sv.vars):
+        cu.apply_typedef_orders(resp, sv)
+    return resp
 
 
 ENUMS = ["datetime", "text", "binned"]
@@ -240,6 +250,55 @@ def gen_numarr_case(rng, k, shape=None):
             "measures": measures, "numvar": None, "valid_counts": valid_counts,
             "unavailable": unavailable, "with_count": rng.random() < 0.5,
             "mask_size": 0, "ca_as_0th": False}
+    if vs and rng.random() < 0.3:
+        attach_typedef_orders(rng, case, p_var=0.8)
+    finish_case(case)
+    return case
+
+
+# ------------------------------------------------------------------------------------
+# "order" in the type definition
+# ------------------------------------------------------------------------------------
+
+TD_KINDS = ("cat", "cat_date", "ca", "datetime", "text", "binned")
+
+
+def shuffle_enum_payload(rng, case, vj):
+    """put the elements of an enum variable (JSON form) in another PAYLOAD order, so that its
+    missing element sits anywhere; the respondents' answers follow"""
+    els = vj["elements"]
+    n = len(els)
+    perm = list(range(n))
+    rng.shuffle(perm)                                  # new payload position q holds old perm[q]
+    vj["elements"] = [els[p] for p in perm]
+    where = {p: q for q, p in enumerate(perm)}
+    for r in case["survey"]["resp"]:
+        r["ans"][vj["alias"]] = where[r["ans"][vj["alias"]]]
+
+
+def attach_typedef_orders(rng, case, p_var=0.7):
+    """give one or more eligible variables of the case (JSON form) a typedef order; returns the
+    aliases.  The caller re-finishes the case."""
+    vjs = [vj for vj in case["survey"]["vars"] if vj["kind"] in TD_KINDS]
+    if not vjs:
+        return []
+    chosen = [vj for vj in vjs if rng.random() < p_var] or [rng.choice(vjs)]
+    for vj in chosen:
+        if vj["kind"] in ("datetime", "text", "binned") and rng.random() < 0.7:
+            shuffle_enum_payload(rng, case, vj)
+        v = cu.var_from_json(vj)
+        vj["typedef_order"] = cu.gen_typedef_order(rng, v)
+    return [vj["alias"] for vj in chosen]
+
+
+def gen_tdorder_case(rng, k, shape_class=None):
+    while True:
+        case = cu.gen_case(rng, k, shape_class=shape_class or rng.choice(
+            ["1d", "1d", "2d", "2d", "2d", "3d", "3d", "ca", "ca3"]))
+        if any(vj["kind"] in TD_KINDS for vj in case["survey"]["vars"]):
+            break
+    case["family"] = "tdorder"
+    case["typedef_aliases"] = attach_typedef_orders(rng, case)
     finish_case(case)
     return case
 
